@@ -756,10 +756,16 @@ fn reader_task(shared: &Arc<Shared>, me: usize, ri: usize, prog: &ReaderProg, pa
     // Attach, retrying a few times while the segment is not usable yet.
     let mut reader: Option<ShmReader> = None;
     for _attempt in 0..6 {
-        // Opening goes through the hooked header parser; do not count or schedule inside it.
-        set_handler(None);
-        let r = ShmReader::new(&cpath);
+        // Opening is schedulable too (a client may attach at any instant of an update); its
+        // accesses are not attributed to a snapshot() call.
         reinstall_reader_handler(&local, shared, me);
+        let r = ShmReader::new(&cpath);
+        {
+            let mut l = local.borrow_mut();
+            l.accesses = 0;
+            l.entry_gen = None;
+            l.zero_loads.clear();
+        }
         match r {
             Ok(r) => {
                 shared.with_monitor(|m| m.open(ri, true));
